@@ -21,6 +21,8 @@ from .tlaparse import find_prints
 INTEGRATIONS = ['int1', 'int2']
 STATEMENTS = [
     "select ?, a from int1.t where b = ?",
+    # placeholders written with an alias / in parentheses: the bound value stands exactly where the placeholder stood
+    "select ? as x, (?) as y, a from int1.t where (?) = b",
     "select a from int1.t where b = ? and c in (?, ?) and d between ? and ?",
     "select a from int1.t where c in (1, ?) and b = ?",
     "select * from int1.t1 join int1.t2 on t1.a = t2.a and t2.b = ? where t1.c = ?",
